@@ -36,6 +36,9 @@ pub struct Scn {
     /// right before the stop every service instance of listener 0 turns not-ready (noticed by a worker when the next
     /// connection reaches it): the burst that follows is dispatched to workers that park it in their queues
     pub unready_at_stop: bool,
+    /// a different, short history: every worker but one is at its limit, the last one dies taking a connection, the
+    /// next connection must still reach a live worker's service
+    pub fault_when_saturated: bool,
 }
 
 impl Scn {
@@ -60,6 +63,7 @@ impl Scn {
             failpoints: r.chance(2, 3),
             prior_faults: if r.chance(1, 4) { 1 + r.usize(2) } else { 0 },
             unready_at_stop: r.chance(1, 4),
+            fault_when_saturated: r.chance(1, 8),
         }
     }
     pub fn to_json(&self) -> Value {
@@ -67,8 +71,8 @@ impl Scn {
     }
     pub fn shape(&self) -> String {
         format!(
-            "w{} l{} {:?} {:?} t{}x{} pr{} g{} f{} pf{} u{}",
-            self.workers, self.limit, self.listeners, self.rt, self.client_threads, self.conns_per_thread, self.pause_resume as u8, self.graceful as u8, self.failpoints as u8, self.prior_faults, self.unready_at_stop as u8
+            "w{} l{} {:?} {:?} t{}x{} pr{} g{} f{} pf{} u{} fs{}",
+            self.workers, self.limit, self.listeners, self.rt, self.client_threads, self.conns_per_thread, self.pause_resume as u8, self.graceful as u8, self.failpoints as u8, self.prior_faults, self.unready_at_stop as u8, self.fault_when_saturated as u8
         )
     }
 }
@@ -89,6 +93,8 @@ pub struct Seen {
     pub pause_resume_cycles: u64,
     pub prior_fault_preludes: u64,
     pub unready_at_stop: u64,
+    pub faults_when_saturated: u64,
+    pub lost_to_dying_worker: u64,
 }
 
 pub enum Outcome {
@@ -97,7 +103,120 @@ pub enum Outcome {
     Inconclusive(String),
 }
 
+/// Workers 2..3 with limit 1: all but one worker hold a connection; the free one dies on the next connection (its
+/// service panics in `call`). The connection after that finds the dead worker, and every other worker saturated: it
+/// must still be served (force-sent to a live worker, or taken by the replacement), not dropped.
+fn run_fault_when_saturated(scn: &Scn, seen: &mut Seen) -> Outcome {
+    let baseline_threads = engine::thread_count();
+    verif::clear_injected_accept_errors();
+    verif::set_abort_spin(false);
+    verif::set_failpoints(&[], 0);
+    verif::start_recording();
+    let workers = 2 + (scn.seed % 2) as usize;
+    let cfg = ServerCfg { workers, limit: 1, listeners: vec![LKind::Tcp], rt: scn.rt, shutdown_timeout: 1, backlog: 128 };
+    let mut run = match engine::start(&cfg, |_| {}) {
+        Ok(r) => r,
+        Err(e) => return Outcome::Inconclusive(e),
+    };
+    let mut fails: Vec<Fail> = Vec::new();
+    let mut held: Vec<Client> = Vec::new();
+    let mut inconclusive: Option<String> = None;
+    // all but one worker saturated
+    for _ in 0..workers - 1 {
+        match Client::connect(&run.addrs[0], 0, b'H') {
+            Ok(mut c) => {
+                let t0 = Instant::now();
+                while c.poll_ack(Duration::from_millis(20)) == Ack::NotYet && t0.elapsed() < Duration::from_secs(5) {}
+                if !c.served {
+                    inconclusive = Some("holder not served".into());
+                }
+                held.push(c);
+            }
+            Err(e) => inconclusive = Some(format!("connect: {e}")),
+        }
+    }
+    let mut victim = None;
+    let mut next = None;
+    if inconclusive.is_none() {
+        let _ = run.barrier(false);
+        // the next connection goes to the only free worker and kills it
+        run.ctls[0].inner.lock().unwrap().panic_next_call = true;
+        victim = Client::connect(&run.addrs[0], 0, b'F').ok();
+        // the one after that must be served by somebody
+        thread::sleep(Duration::from_millis(if scn.seed % 3 == 0 { 0 } else { 150 }));
+        match Client::connect(&run.addrs[0], 0, b'F') {
+            Ok(mut c) => {
+                seen.faults_when_saturated += 1;
+                let t0 = Instant::now();
+                let mut ack = Ack::NotYet;
+                while t0.elapsed() < Duration::from_secs(8) {
+                    ack = c.poll_ack(Duration::from_millis(20));
+                    if ack != Ack::NotYet {
+                        break;
+                    }
+                }
+                match ack {
+                    Ack::Served => {}
+                    // closed unserved: legitimate if it had been handed to the worker that was in the middle of dying
+                    // (its queue is released when it is gone); the accept thread's own drops are judged on the log below
+                    Ack::ClosedByServer => seen.lost_to_dying_worker += 1,
+                    Ack::NotYet => match vh_core::proc::quiescent(Duration::from_millis(1500)) {
+                        Some(true) => fails.push(fail(
+                            "C01:connection-never-served-after-fault",
+                            format!("{workers} workers, limit 1: the connection that followed a worker's death was neither served nor closed within 8 s; process quiescent; events {:?}", monitor::tail(&verif::log_since(0), 14)),
+                        )),
+                        _ => inconclusive = Some("connection after the fault not served yet, process busy".into()),
+                    },
+                }
+                next = Some(c);
+            }
+            Err(e) => inconclusive = Some(format!("connect: {e}")),
+        }
+        // the accept thread's own account: a connection dropped for lack of workers while a handle was left
+        let log = verif::log_since(0);
+        for (i, r) in log.iter().enumerate() {
+            if let Ev::DroppedNoWorkers { fd, .. } = &r.ev {
+                let snap = log[..i].iter().rev().find_map(|x| if let Ev::LoopIdle(s) = &x.ev { Some(s.handles.clone()) } else { None }).unwrap_or_default();
+                let failed: Vec<usize> = log[..=i].iter().filter_map(|x| if let Ev::DispatchFailed { worker, .. } = &x.ev { Some(*worker) } else { None }).collect();
+                let left: Vec<usize> = snap.iter().copied().filter(|h| !failed.contains(h)).collect();
+                if !left.is_empty() && fails.is_empty() {
+                    fails.push(fail(
+                        "C01:connection-discarded-while-worker-alive",
+                        format!("fd {fd} was dropped for lack of workers although the accept thread still had handles {left:?}; events {:?}", monitor::around(&log, i, 6, 4)),
+                    ));
+                }
+            }
+        }
+    }
+    for c in held {
+        c.close();
+    }
+    if let Some(c) = victim {
+        c.close();
+    }
+    if let Some(c) = next {
+        c.close();
+    }
+    let (stopped, _) = run.stop(false, Duration::from_secs(15));
+    let joined = run.join(Duration::from_secs(15));
+    verif::stop_recording();
+    let gone = engine::wait_threads_gone(baseline_threads, Duration::from_secs(10));
+    if !fails.is_empty() {
+        return Outcome::Violated(fails);
+    }
+    if let Some(w) = inconclusive {
+        return Outcome::Inconclusive(w);
+    }
+    if !stopped || !joined || !gone {
+        return Outcome::Inconclusive("teardown did not finish".into());
+    }
+    Outcome::Held
+}
+
 pub fn run_scenario(scn: &Scn, seen: &mut Seen) -> Outcome {
+    if scn.fault_when_saturated {
+        return run_fault_when_saturated(scn, seen);
+    }
     let baseline_threads = engine::thread_count();
     let fds_before = engine::open_fds();
     verif::clear_injected_accept_errors();
